@@ -45,6 +45,20 @@ theorem conv1d_masked_eq_exported {R : Type} [Semiring R] (K d0 : ℕ) (hK : 0 <
   obtain ⟨a, t, h⟩ := shape_exists K d0 hK β γ
   exact conv_eq_of_shape h w x τ
 
+/-- the same statement about the **executable** layer functions that `Drivers/PITTime.lean` runs
+against the real `PITConv1d` and the real exported `Conv1d` on integer signals: every output sample
+of every output channel, any number of input channels, any stride, any bias -/
+theorem conv1d_layer_masked_eq_exported (K d0 : ℕ) (hK : 0 < K) (β γ : ℕ → ℚ) (cout : ℕ)
+    (w : ℕ → ℕ → ℕ → ℤ) (b : ℕ → ℤ) (xs : List (List ℤ)) (s T : ℕ) :
+    convLayer (maskedConvAt K d0 β γ) cout w b xs s T = convLayer (exportedConvAt K d0 β γ) cout w b xs s T := by
+  unfold convLayer
+  apply List.map_congr_left; intro co _
+  apply List.map_congr_left; intro t _
+  congr 2
+  apply List.map_congr_left; intro ci _
+  unfold maskedConvAt exportedConvAt
+  exact conv1d_masked_eq_exported K d0 hK β γ (w co ci) (signal (xs.getD ci [])) _
+
 /-- with every mask open the exported layer is the seed layer: all taps, same dilation -/
 theorem open_masks_export_identity (K d0 : ℕ) (hK : 0 < K) :
     timeMask K (fun _ => 1) (fun _ => 1) = List.replicate K true ∧
